@@ -53,3 +53,6 @@ def define(M):
     # C09: regression mutant of the repaired defect (flatten filter, sparse masters)
     M("C09", "flatten_ifilter_does_not_define_composite_at_sparse_locations", "Lib/ufo2ft/filters/flattenComponents.py",
       "            self.ensureCompositeDefinedAtComponentLocations(glyphName)\n", "            pass\n")
+    # C18: regression mutant of the repaired defect (de3470c): doubly encoded glyphs neutral again
+    M("C18", "glyph_with_script_and_neutral_code_points_neutral_again", "Lib/ufo2ft/util.py",
+      "    for glyphs in glyphSets.values():\n        neutralGlyphs -= glyphs\n", "")
